@@ -37,6 +37,23 @@ Record attrsvc  := { as_default : option bool; as_requested : list reqattr }.
 Record spsso    := { acs : list endpoint; kds : list keydesc; attr_services : list attrsvc }.
 Record spmeta   := { md_entity : string; descriptors : list spsso }.
 
+(* an AssertionConsumerService element as written in a metadata document, and what
+   IndexedEndpoint.UnmarshalXML (checkEndpointLocation) makes of it when the
+   document parses: the Location of an endpoint whose binding the parser does
+   not know is blanked; ResponseLocation (checked, kept or dropped) never
+   reaches Location.  (A known binding with a Location that is not an http(s)
+   URL makes the whole document fail to parse; such documents are not registered.) *)
+Record rawendpoint := { re_binding : string; re_location : string; re_response_location : option string;
+                        re_index : Z; re_default : option bool }.
+Definition known_bindings : list string :=
+  [ "urn:oasis:names:tc:SAML:2.0:bindings:HTTP-POST"; "urn:oasis:names:tc:SAML:2.0:bindings:HTTP-Redirect";
+    "urn:oasis:names:tc:SAML:2.0:bindings:HTTP-Artifact"; "urn:oasis:names:tc:SAML:2.0:bindings:SOAP";
+    "urn:oasis:names:tc:SAML:1.0:bindings:SOAP-binding" ].
+Definition parse_endpoint (r : rawendpoint) : endpoint :=
+  {| ep_binding := re_binding r;
+     ep_location := if mem_str (re_binding r) known_bindings then re_location r else "";
+     ep_index := re_index r; ep_default := re_default r |}.
+
 Inductive reglookup := Found (md : spmeta) | NotExist | LookupErr.
 Definition registry := string -> reglookup.
 
@@ -156,7 +173,10 @@ Definition validate_framed (cfg : idpcfg) (reg : registry) (now : Z) (f : framed
 
 (* ------------------------------------------------------------------------- *)
 (* sessions and assertions                                                      *)
-Record attrvalue := { av_type : string; av_value : string }.
+Record nameid := { ni_format : string; ni_name_qualifier : string; ni_sp_name_qualifier : string; ni_value : string }.
+(* AttributeValue: xsi:type, character data and, optionally, a NameID child (the struct
+   carries both; Element() writes the child and the text) *)
+Record attrvalue := { av_type : string; av_value : string; av_nameid : option nameid }.
 Record attribute := { at_friendly : string; at_name : string; at_format : string; at_values : list attrvalue }.
 
 Record session := {
@@ -166,7 +186,6 @@ Record session := {
   ss_custom : list attribute
 }.
 
-Record nameid := { ni_format : string; ni_name_qualifier : string; ni_sp_name_qualifier : string; ni_value : string }.
 
 Record assertion := {
   a_id : string; a_issue_instant : Z; a_issuer : string; a_issuer_format : string;
@@ -192,7 +211,7 @@ Definition fmt_basic := "urn:oasis:names:tc:SAML:2.0:attrname-format:basic".
 Definition fmt_unspecified := "urn:oasis:names:tc:SAML:2.0:attrname-format:unspecified".
 Definition fmt_uri := "urn:oasis:names:tc:SAML:2.0:attrname-format:uri".
 
-Definition xs_val (v : string) : attrvalue := {| av_type := "xs:string"; av_value := v |}.
+Definition xs_val (v : string) : attrvalue := {| av_type := "xs:string"; av_value := v; av_nameid := None |}.
 
 (* the switch on the normalised requested-attribute name *)
 Definition requested_value (s : session) (n : string) : option string :=
@@ -621,14 +640,19 @@ Fixpoint list_eqb {A} (eq : A -> A -> bool) (a b : list A) : bool :=
   | x :: a', y :: b' => eq x y && list_eqb eq a' b'
   | _, _ => false
   end.
-Definition attrvalue_eqb (a b : attrvalue) : bool :=
-  seqb (av_type a) (av_type b) && seqb (av_value a) (av_value b).
-Definition attribute_eqb (a b : attribute) : bool :=
-  seqb (at_friendly a) (at_friendly b) && seqb (at_name a) (at_name b) && seqb (at_format a) (at_format b)
-  && list_eqb attrvalue_eqb (at_values a) (at_values b).
 Definition nameid_eqb (a b : nameid) : bool :=
   seqb (ni_format a) (ni_format b) && seqb (ni_name_qualifier a) (ni_name_qualifier b)
   && seqb (ni_sp_name_qualifier a) (ni_sp_name_qualifier b) && seqb (ni_value a) (ni_value b).
+Definition attrvalue_eqb (a b : attrvalue) : bool :=
+  seqb (av_type a) (av_type b) && seqb (av_value a) (av_value b)
+  && match av_nameid a, av_nameid b with
+     | None, None => true
+     | Some x, Some y => nameid_eqb x y
+     | _, _ => false
+     end.
+Definition attribute_eqb (a b : attribute) : bool :=
+  seqb (at_friendly a) (at_friendly b) && seqb (at_name a) (at_name b) && seqb (at_format a) (at_format b)
+  && list_eqb attrvalue_eqb (at_values a) (at_values b).
 Definition assertion_eqb (a b : assertion) : bool :=
   seqb (a_id a) (a_id b) && (a_issue_instant a =? a_issue_instant b) && seqb (a_issuer a) (a_issuer b)
   && seqb (a_issuer_format a) (a_issuer_format b) && nameid_eqb (a_nameid a) (a_nameid b)
@@ -724,7 +748,8 @@ Definition times_b (cfg : idpcfg) (rq : authnreq) (now tnow : Z) (resp : respons
 Definition session_values (s : session) : list string :=
   [ss_email s; ss_common_name s; ss_given_name s; ss_surname s; ss_user_name s; ss_eppn s;
    ss_scoped_aff s; ss_subject_id s] ++ ss_groups s
-  ++ flat_map (fun a => map av_value (at_values a)) (ss_custom s).
+  ++ flat_map (fun a => flat_map (fun v => av_value v :: match av_nameid v with Some n => [ni_value n] | None => [] end)
+                                 (at_values a)) (ss_custom s).
 
 Fixpoint subseq_b {A} (eq : A -> A -> bool) (small big : list A) : bool :=
   match small, big with
@@ -744,7 +769,9 @@ Definition attrs_b (s : session) (resp : response) : bool :=
   let a := fst (inner_assertion resp) in
   seqb (ni_value (a_nameid a)) (ss_nameid s)
   && seqb (a_session_index a) (ss_index s) && (a_authn_instant a =? ss_create s)
-  && forallb (fun x => forallb (fun v => mem_str (av_value v) (session_values s)) (at_values x)) (a_attributes a)
+  && forallb (fun x => forallb (fun v => mem_str (av_value v) (session_values s)
+                                         && match av_nameid v with Some n => mem_str (ni_value n) (session_values s) | None => true end)
+                               (at_values x)) (a_attributes a)
   && subseq_b attribute_eqb (ss_custom s) (a_attributes a)
   && group_attr_ok s (a_attributes a).
 
@@ -932,10 +959,16 @@ Fixpoint tr_list {A} (f : A -> option A) (l : list A) : option (list A) :=
   | [] => Some []
   | x :: r => match f x, tr_list f r with Some y, Some r' => Some (y :: r') | _, _ => None end
   end.
+Definition tr_nameid (n : nameid) : option nameid :=
+  match tr_attr (ni_format n), tr_attr (ni_name_qualifier n), tr_attr (ni_sp_name_qualifier n), tr_text (ni_value n) with
+  | Some f, Some q, Some sq, Some v => Some {| ni_format := f; ni_name_qualifier := q; ni_sp_name_qualifier := sq; ni_value := v |}
+  | _, _, _, _ => None
+  end.
 Definition tr_value (v : attrvalue) : option attrvalue :=
-  match tr_attr (av_type v), tr_text (av_value v) with
-  | Some t, Some x => Some {| av_type := t; av_value := x |}
-  | _, _ => None
+  match tr_attr (av_type v), tr_text (av_value v),
+        match av_nameid v with None => Some None | Some n => option_map Some (tr_nameid n) end with
+  | Some t, Some x, Some n => Some {| av_type := t; av_value := x; av_nameid := n |}
+  | _, _, _ => None
   end.
 Definition tr_attribute (a : attribute) : option attribute :=
   match tr_attr (at_friendly a), tr_attr (at_name a), tr_attr (at_format a), tr_list tr_value (at_values a) with
@@ -955,7 +988,12 @@ Definition c07_expect (s : session) : option (string * list attribute) :=
   end.
 
 Definition attr_pos_ok (s : string) : bool := valid_xml_chars s && negb (has_cdata_end s).
-Definition value_clean (v : attrvalue) : bool := attr_pos_ok (av_type v) && valid_xml_chars (av_value v).
+Definition nameid_clean (n : nameid) : bool :=
+  attr_pos_ok (ni_format n) && attr_pos_ok (ni_name_qualifier n) && attr_pos_ok (ni_sp_name_qualifier n)
+  && valid_xml_chars (ni_value n).
+Definition value_clean (v : attrvalue) : bool :=
+  attr_pos_ok (av_type v) && valid_xml_chars (av_value v)
+  && match av_nameid v with Some n => nameid_clean n | None => true end.
 Definition attribute_clean (a : attribute) : bool :=
   attr_pos_ok (at_friendly a) && attr_pos_ok (at_name a) && attr_pos_ok (at_format a)
   && forallb value_clean (at_values a).
@@ -974,7 +1012,13 @@ Definition c07_agree (c : c07case) : bool :=
   | Some (n, l) => c7_accepted c && seqb n (c7_nameid c) && list_eqb attribute_eqb l (c7_attrs c)
   end.
 (* every session string consists of XML characters (the property's quantifier) *)
-Definition value_valid (v : attrvalue) : bool := valid_xml_chars (av_type v) && valid_xml_chars (av_value v).
+Definition value_valid (v : attrvalue) : bool :=
+  valid_xml_chars (av_type v) && valid_xml_chars (av_value v)
+  && match av_nameid v with
+     | Some n => valid_xml_chars (ni_format n) && valid_xml_chars (ni_name_qualifier n)
+                 && valid_xml_chars (ni_sp_name_qualifier n) && valid_xml_chars (ni_value n)
+     | None => true
+     end.
 Definition attribute_valid (a : attribute) : bool :=
   valid_xml_chars (at_friendly a) && valid_xml_chars (at_name a) && valid_xml_chars (at_format a)
   && forallb value_valid (at_values a).
